@@ -5,6 +5,7 @@
   Helper lemmas: LpProofs/C05/Basic.lean.
 -/
 import LpProofs.C05.Basic
+import LpProofs.C05.Pivot
 
 namespace Lp.C05
 open Lp.C04 Lp.C04.Mat Matrix
@@ -251,10 +252,87 @@ theorem inverse_eq_inv {A X : Mat} (h : inverse A = .ok X) :
   obtain ⟨-, -, -, -, h1, -⟩ := inverse_correct h
   exact (Matrix.inv_eq_left_inv h1).symm
 
-/-- totality (DESIGN.md C05 [T2]): full statement.  With partial pivoting a non-zero determinant
+/-- totality (DESIGN.md C05 [T2]), full statement: with partial pivoting a non-zero determinant
     forces a non-zero pivot at every step, so every invertible matrix gets an inverse. -/
 def inverse_total_FULL : Prop :=
   ∀ (A : Mat) (n : ℕ), A.rows = n + 1 → A.cols = n + 1 →
     Matrix.det (toM A (n + 1) (n + 1)) ≠ 0 → ∃ X, inverse A = .ok X
+
+/-- with partial pivoting a non-singular left half always offers a non-zero pivot -/
+theorem gjStep_total {N : ℕ} {W : Mat} {t : ℕ} (ht : t < N) (hs : Shape N W) (hD : ColsDone N t W)
+    (hdet : (left N W).det ≠ 0) :
+    ∃ W', gjStep N W t = some W' ∧ (left N W').det ≠ 0 := by
+  obtain ⟨hp1, hp2⟩ := pivotRow_bounds W ht
+  obtain ⟨h1, h2⟩ := hs
+  -- the pivot candidate is non-zero, else column t vanishes at and below the diagonal
+  have hpne : W.get (pivotRow W N t) t ≠ 0 := by
+    intro h0
+    apply hdet
+    apply det_left_eq_zero ht hD
+    intro j htj hj
+    have := pivotRow_max W (N := N) htj hj
+    rw [h0, rabs_zero] at this
+    exact rabs_eq_zero this
+  by_cases hpi : pivotRow W N t ≠ t
+  · have hpiv : (swapRows W t (pivotRow W N t)).get t t ≠ 0 := by
+      rw [get_swapRows (by omega) (by omega)]; simpa using hpne
+    refine ⟨eliminate (swapRows W t (pivotRow W N t)) t, ?_, ?_⟩
+    · unfold gjStep; simp only []; rw [if_pos hpi, if_neg hpiv]
+    · exact det_left_eliminate (shape_swapRows ⟨h1, h2⟩ _ _) ⟨t, ht⟩
+        (det_left_swapRows ⟨h1, h2⟩ ⟨t, ht⟩ ⟨pivotRow W N t, hp2⟩ hdet)
+  · have hpt : pivotRow W N t = t := not_not.mp hpi
+    have hpiv : W.get t t ≠ 0 := by rw [hpt] at hpne; exact hpne
+    refine ⟨eliminate W t, ?_, det_left_eliminate ⟨h1, h2⟩ ⟨t, ht⟩ hdet⟩
+    unfold gjStep; simp only []; rw [if_neg hpi, if_neg hpiv]
+
+theorem gjLoop_total {N : ℕ} {M : Matrix (Fin N) (Fin N) ℚ} (len : ℕ) : ∀ (s : ℕ) (W : Mat),
+    s + len = N → Shape N W → RowInv N M W → ColsDone N s W → (left N W).det ≠ 0 →
+    ∃ W', gjLoop N (List.range' s len) W = some W' := by
+  induction len with
+  | zero => intro s W _ _ _ _ _; exact ⟨W, by simp [gjLoop]⟩
+  | succ len ih =>
+    intro s W hsl hs hI hD hdet
+    obtain ⟨W1, hstep, hdet1⟩ := gjStep_total (by omega) hs hD hdet
+    obtain ⟨hs1, hI1, hD1⟩ := gjStep_invariant (by omega) hs hI hD hstep
+    obtain ⟨W', hW'⟩ := ih (s + 1) W1 (by omega) hs1 hI1 hD1 hdet1
+    exact ⟨W', by rw [List.range'_succ]; simp only [gjLoop, hstep]; exact hW'⟩
+
+/-- **totality**: with partial pivoting every invertible matrix gets an inverse, whatever the
+    position of its zero entries (the clause the code violated before fix f73d8c5) -/
+theorem inverse_total : inverse_total_FULL := by
+  intro A n hr hc hdet
+  have hinv : invertible A = true := (invertible_iff hr).mpr ⟨hc, hdet⟩
+  have hdet' : (left A.rows (augment A)).det ≠ 0 := by
+    rw [left_augment]; rw [hr]; exact hdet
+  obtain ⟨W, hW⟩ := gjLoop_total (M := toM A A.rows A.rows) A.rows 0 (augment A) (by omega) (shape_augment A)
+    (rowInv_augment A) (fun c hc => absurd hc (Nat.not_lt_zero c)) hdet'
+  rw [← List.range_eq_range'] at hW
+  refine ⟨normalise A.rows W, ?_⟩
+  have hsq : ¬ A.rows ≠ A.cols := by omega
+  simp [inverse, hsq, hinv, hW]
+
+
+/-- every invertible matrix of size `n ≥ 1` is inverted, and the result is its two-sided inverse -/
+theorem inverse_complete {A : Mat} {n : ℕ} (hr : A.rows = n + 1) (hc : A.cols = n + 1)
+    (hdet : Matrix.det (toM A (n + 1) (n + 1)) ≠ 0) :
+    ∃ X, inverse A = .ok X ∧ toM X A.rows A.rows * toM A A.rows A.rows = 1 ∧
+      toM A A.rows A.rows * toM X A.rows A.rows = 1 := by
+  obtain ⟨X, hX⟩ := inverse_total A n hr hc hdet
+  obtain ⟨-, -, -, -, h1, h2⟩ := inverse_correct hX
+  exact ⟨X, hX, h1, h2⟩
+
+/-! ## Non-vacuity: concrete instances -/
+
+example : det ⟨3, 3, [[2, 0, 1], [1, 3, 2], [1, 1, 4]]⟩ = .ok 18 := by decide +kernel
+example : det ⟨2, 3, [[1, 2, 3], [4, 5, 6]]⟩ = .error .diag := by decide +kernel
+-- the exchange matrix (zero leading pivot): inverted by the row exchange
+example : inverse ⟨2, 2, [[0, 1], [1, 0]]⟩ = .ok ⟨2, 2, [[0, 1], [1, 0]]⟩ := by decide +kernel
+example : inverse ⟨3, 3, [[0, 2, 0], [0, 0, 3], [5, 0, 0]]⟩
+    = .ok ⟨3, 3, [[0, 0, 1/5], [1/2, 0, 0], [0, 1/3, 0]]⟩ := by decide +kernel
+example : inverse ⟨2, 2, [[1, 2], [2, 4]]⟩ = .error .diag := by decide +kernel
+example : invertible ⟨2, 2, [[1, 2], [3, 4]]⟩ = true := by decide +kernel
+-- hypotheses of `gjStep_invariant` are met by the initial state of a 2×2 inversion
+example : Shape 2 (augment ⟨2, 2, [[0, 1], [1, 0]]⟩) ∧ ColsDone 2 0 (augment ⟨2, 2, [[0, 1], [1, 0]]⟩) :=
+  ⟨shape_augment _, fun c hc => absurd hc (Nat.not_lt_zero c)⟩
 
 end Lp.C05
